@@ -6,11 +6,17 @@ import os
 ROOT = os.path.dirname(os.path.dirname(os.path.abspath(__file__)))
 
 ENGINES = [
+    {'name': 'E1 pair', 'path': 'h2verif/pair.py', 'kind_free_text':
+     'two H2Connection endpoints, harness-owned byte pipes and delivery schedule, one RFC model per endpoint, '
+     'ledger oracle computed from call arguments + twin replay without the raising calls'},
     {'name': 'E2 solo', 'path': 'h2verif/solo.py', 'kind_free_text':
      'one endpoint under test, scripted peer built from the independent codec wire.py and hpack mirror'},
     {'name': 'E3 bytes', 'path': 'h2verif/bytesgen.py', 'kind_free_text':
      'byte-level generation (peer-model byte streams + mutators) and, through h2verif/athfuzz.py, atheris '
      'coverage-guided mutation of the case bytes, with in-target oracles'},
+    {'name': 'E4 subprocess', 'path': 'h2verif/props/C28.py', 'kind_free_text':
+     'the same generated program executed in child interpreters with other PYTHONHASHSEED values and shifted '
+     'clocks; per-step transcripts compared'},
 ]
 
 
